@@ -1132,40 +1132,25 @@ class DataFrameSchema(Generic[TDataObject], BaseSchema):
             if not level_temp or isinstance(new_schema.index, Index)
             else new_schema.index.remove_columns(level_temp)
         )
-        new_index = (
-            new_index
-            if new_index is None
-            else (
-                Index(
-                    dtype=new_index.columns[list(new_index.columns)[0]].dtype,
-                    checks=new_index.columns[
-                        list(new_index.columns)[0]
-                    ].checks,
-                    nullable=new_index.columns[
-                        list(new_index.columns)[0]
-                    ].nullable,
-                    unique=new_index.columns[
-                        list(new_index.columns)[0]
-                    ].unique,
-                    coerce=new_index.columns[
-                        list(new_index.columns)[0]
-                    ].coerce,
-                    name=new_index.columns[list(new_index.columns)[0]].name,
-                )
-                if (len(list(new_index.columns)) == 1)
-                and (new_index is not None)
-                else (
-                    None
-                    if (len(list(new_index.columns)) == 0)
-                    and (new_index is not None)
-                    else new_index
-                )
-            )
-        )
+        if new_index is not None:
+            # keep the level schemas in sync with the remaining columns
+            new_index.indexes = [
+                x for x in new_index.indexes if x.name not in level_temp
+            ]
+            if len(new_index.indexes) == 1:
+                # a single remaining level becomes a plain Index
+                new_index.indexes[0].coerce = new_index.coerce
+                new_index = new_index.indexes[0]
+            elif not new_index.indexes:
+                new_index = None
 
         if not drop:
             additional_columns: Dict[str, Any] = (
-                {col: new_schema.index.columns.get(col) for col in level_temp}
+                {
+                    x.name: x
+                    for x in new_schema.index.indexes
+                    if x.name in level_temp
+                }
                 if isinstance(new_schema.index, MultiIndex)
                 else {new_schema.index.name: new_schema.index}
             )
